@@ -3,7 +3,9 @@ CFG = {'assumptions': ['f64 inputs cross the boundary as bit patterns and are de
                  'ops are IEEE-754',
                  'coordinates are finite and far from overflow/underflow (|c| < 2^52, no subnormals)'],
  'count': {'quick': 30000, 'thorough': 1200000},
- 'lean_files': ['GeoModel/Centroid.lean', 'GeoModel/Ops/C06.lean'],
+ 'lean_files': ['GeoModel/Centroid.lean', 'GeoModel/Ops/C06.lean',
+                'GeoProofs/Lemmas/C06PEquiv.lean', 'GeoProofs/Lemmas/C06PPoly.lean', 'GeoProofs/Lemmas/C06PSpec.lean',
+                'GeoProofs/Lemmas/C06PScale.lean', 'GeoProofs/Lemmas/C06PHull.lean'],
  'rule': 'random geometries of all 10 types and nested mixed-dimension collections (depth<=3, empty and '
          'degenerate members; polygons: arbitrary rings, convex shells of either winding, valid shells with '
          '0-4 holes of either winding, flat/single-point polygons with flat holes, shells exactly covered by '
